@@ -451,8 +451,48 @@ func run(c Case) error {
 	}
 	_ = marks
 	// start error is retried after the back-off, not sooner, and is retried
+	respSeen := map[string]int{} // answers are given in order: the k-th answer for a name belongs to its k-th registration
 	for i, e := range events {
+		if !strings.HasPrefix(e.Kind, "Resp:") {
+			continue
+		}
+		k := respSeen[e.Name]
+		respSeen[e.Name]++
 		if e.Kind != "Resp:err" {
+			continue
+		}
+		// the refused registration is the k-th NewProxy of that name; if the proxy was stopped (CloseProxy) between
+		// that registration and this answer, the generation it belonged to is over and what follows is no retry
+		regIdx, seen := -1, 0
+		for j, f := range events[:i] {
+			if f.Name == e.Name && f.Kind == "NewProxy" {
+				if seen == k {
+					regIdx = j
+					break
+				}
+				seen++
+			}
+		}
+		stale := regIdx < 0
+		for _, f := range events[max(regIdx, 0):i] {
+			if f.Name == e.Name && f.Kind == "CloseProxy" {
+				stale = true
+			}
+		}
+		if stale {
+			continue
+		}
+		// recorded finding "stale-newproxyresp": an answer to an EARLIER registration of this name that went out after
+		// this registration had arrived is taken by the client for the answer to this one; its back-off clock then
+		// starts at that earlier answer and the real answer is ignored - the timing below cannot be attributed
+		adopted := false
+		for _, r := range events[:i] { // (log order is answering order; arrival times decide)
+			if r.Name == e.Name && strings.HasPrefix(r.Kind, "Resp:") && r.T > events[regIdx].T {
+				adopted = true
+			}
+		}
+		if adopted && fx.Known("C19", "stale-newproxyresp") && !probeMode {
+			fx.AddLabel("reload_convergence", "excluded-known-finding:stale-newproxyresp", 1)
 			continue
 		}
 		for _, f := range events[i+1:] {
@@ -463,8 +503,11 @@ func run(c Case) error {
 				break // reconfigured meanwhile
 			}
 			if f.Kind == "NewProxy" {
+				if f.T < e.T {
+					continue // sent before the refusal went out (a resend after the response timeout): not caused by it
+				}
 				if d := f.T - e.T; d < startErrWait-20*time.Millisecond {
-					return fmt.Errorf("proxy %s: registration refused by the server was retried after %v, the back-off is %v", e.Name, d, startErrWait)
+					return fmt.Errorf("proxy %s: registration refused by the server was retried after %v, the back-off is %v\nevents: %s", e.Name, d, startErrWait, evs(ss))
 				}
 				break
 			}
